@@ -45,42 +45,8 @@ pub(crate) fn c05_timer_extent_contract() {
     kani::cover!(true);
 }
 
-/// SpanGuard::new + start + drop with the default completion: the filter is consulted exactly once (C04),
-/// is_enabled() is its answer, and the emitter receives exactly one event iff the span was accepted, with the
-/// range extent start-reading..end-reading; a rejected span emits nothing. (Oracles that do not inspect the
-/// properties: the composed span props are too heavy for CBMC - the ids are covered by the Verus unit.)
-#[cfg_attr(kani, kani::proof)]
-#[cfg_attr(kani, kani::unwind(4))]
-pub(crate) fn c05_span_lifecycle_contract() {
-    let answer: bool = kani::any();
-    let filter = CountFilter { calls: Cell::new(0), answer };
-    let emitter = ExtentEmitter::new();
-    let clk = SeqClock { calls: Cell::new(0), t0: any_opt_ts(), t1: any_opt_ts() };
-    let (guard, frame) = SpanGuard::new(
-        &filter,
-        emit::Empty,
-        &clk,
-        emit::Empty,
-        emit::span::completion::Default::<_, _, emit::Level>::new(&emitter, emit::Empty),
-        emit::Empty,
-        emit::Path::new_raw("m"),
-        "s",
-        emit::Empty,
-    );
-    assert!(filter.calls.get() == 1);
-    assert!(guard.is_enabled() == answer);
-    assert!(emitter.calls.get() == 0 && clk.calls.get() == 0);
-    frame.call(move || {
-        let mut guard = guard;
-        guard.start();
-    });
-    assert!(filter.calls.get() == 1);
-    assert!(emitter.calls.get() == if answer { 1 } else { 0 });
-    if answer {
-        match (clk.t0, clk.t1) {
-            (Some(a), Some(b)) => assert!(emitter.is_range.get() && emitter.start.get() == Some(a) && emitter.end.get() == Some(b)),
-            _ => assert!(!emitter.is_range.get() && emitter.start.get().is_none()),
-        }
-    }
-    kani::cover!(true);
-}
+// NOTE: a public-API harness for SpanGuard::new + start + drop with the default completion was tried twice
+// (oracles inspecting the props; oracles only counting / reading the extent): CBMC does not finish within
+// 15 minutes either way (SpanGuard::new composes five property collections and two templates for the filter's
+// event). The per-operation contracts are proved in-crate (kani/incrate/span.rs) and the ids by the Verus unit
+// emit_span_ctxt, so that harness is not registered.
